@@ -13,7 +13,8 @@
    very operation, and never link the caller's objects with the library's.  These are predicates
    on arbitrary functions, not on the enumeration used by the harness. *)
 From SC Require Import Base.Prelude Alias.Owned Alias.OwnedProofs Alias.LayerProofs Alias.TraitProofs
-  Alias.Nested Alias.NestedProofs Alias.C07Judge Alias.C07JudgeProofs Alias.Monitor Alias.MonitorProofs.
+  Alias.Nested Alias.NestedProofs Alias.C07Judge Alias.C07JudgeProofs Alias.Monitor Alias.MonitorProofs
+  Alias.Sites Gen.AliasSites Alias.SitesProofs.
 
 (* Every message published at any point of any history - stored values, results, event old and
    new values, seeds, filtered or not - is still published and reads exactly the same after
@@ -318,3 +319,28 @@ Theorem C07_judge_sound_partial : forall ops obs st, inv st -> forallb cop_prove
   agrees_from st ops obs = true -> lib_quiet st ops obs.
 Proof. exact judge_sound_lib. Qed.
 Print Assumptions C07_judge_sound_partial.
+
+(* ---- the in-place write sites of the tree under check (Gen/AliasSites.v, regenerated from the source
+   on every run) satisfy the ownership discipline: whatever hand-written code of pkg/masks, pkg/resource
+   and pkg/trait filters, merges into, resets, sorts, shifts or assigns a field of is an object the
+   function built or cloned, or one of its parameters - and never the first parameter (the live old
+   message) of a function registered as an interceptor; the reviewed exceptions are listed with their
+   reason in Alias/Sites.v and each of them is still in use. ---- *)
+Theorem C07_source_sites_follow_discipline : sites_ok alias_sites = true.
+Proof. exact alias_sites_discipline. Qed.
+Print Assumptions C07_source_sites_follow_discipline.
+Theorem C07_source_sites_reviewed_all_used :
+  forallb (fun r => match r with (f, k, e, _) =>
+             existsb (fun s => String.eqb f (as_func s) && String.eqb k (as_kind s) && String.eqb e (as_expr s)) alias_sites
+           end) reviewed = true.
+Proof. exact reviewed_all_used. Qed.
+Print Assumptions C07_source_sites_reviewed_all_used.
+(* the rows the translator reports for the code before the repairs / under the seeded changes violate it *)
+Theorem C07_source_sites_v0_refuted :
+  sites_ok sites_metadata_v0 = false /\ sites_ok sites_parent_v0 = false /\
+  sites_ok sites_openclose_v0 = false /\ sites_ok sites_enterleave_v0 = false.
+Proof. exact sites_v0_refuted. Qed.
+Print Assumptions C07_source_sites_v0_refuted.
+Example C07_source_sites_nonvacuous : (100 <=? zlen alias_sites)%Z = true /\
+  has_site alias_sites "metadataMergeInterceptor" "Sort" = true /\ has_site alias_sites "traitUnion" "ShiftAppend" = true.
+Proof. destruct alias_sites_cover_the_model as (A & _ & _ & _ & _ & _ & _ & _ & B & _ & _ & _ & C & _). auto. Qed.
